@@ -23,6 +23,9 @@ Coord == 0..MaxC
 \* its form, and the pieces of a whole-number variable are fractions, never rounded.  The harness hands
 \* over one variable per form with every segment, chain and antimeridian case.
 VarForms == {"float64", "int64"}
+\* Two public methods grid a trajectory (grid_trajectory and the older cells_touched_by_trajectory_with_state_and_
+\* integrated_variables it was refactored from): same pieces - cells, order, amounts - from both
+EntryPoints == {"grid_trajectory", "cells_touched_by_trajectory_with_state_and_integrated_variables"}
 \* cell index of a rational coordinate x: the k with kQ < x <= (k+1)Q
 CellOf(x) == LET n == x[1]  d == x[2] * Q          \* x / Q = n / d
                  fl == IF n >= 0 THEN n \div d ELSE -((-n + d - 1) \div d)   \* floor
